@@ -222,6 +222,15 @@ def jobs(tier, seed):
     js.append(Job("large_planted", len(large_matrices()), _large_chunk, None, chunk=1, describe="1x11 ... 24x24 matrices with a planted optimal matching (value 0), minimise and maximise"))
     for rc in ((2, 2), (2, 3), (3, 2), (3, 3)):
         js.append(_job(*rc, TINY, f"{rc[0]}x{rc[1]}_over_0_2^-40_1"))
+    # costs far from zero with a small spread (every entry much larger than the differences between entries)
+    OFF4 = (6, 7, 8, 9)
+    OFF3 = (20, 21, 30)
+    js.append(_job(2, 2, OFF4, "2x2_over_6_7_8_9"))
+    js.append(_job(3, 3, OFF4, "3x3_over_6_7_8_9"))
+    js.append(_job(2, 3, OFF4, "2x3_over_6_7_8_9"))
+    js.append(_job(3, 2, OFF4, "3x2_over_6_7_8_9"))
+    js.append(_job(3, 3, OFF3, "3x3_over_20_21_30"))
+    js.append(_job(4, 4, (100, 140), "4x4_over_100_140"))
     nb = 2 * (3**2 + 3**2 + 3**6 + 3**6 + 3**3 + 3**3)
     js.append(Job("call_history_pairs", len(HIST_FIRST) * 2 * nb, _history_chunk, None, describe="a square solve followed by a rectangular solve of the same padded size; the second call is judged on its own (results must not depend on earlier calls)"))
     big = [(3, 4, A3), (4, 3, A3)]
